@@ -107,6 +107,32 @@ def audit_axioms(prop: str) -> Tuple[Dict[str, List[str]], List[str]]:
     return thms, problems
 
 
+CURRENT_TIER = "quick"      # set by main before the check runs
+
+
+def leanchecker_all() -> Dict[str, Any]:
+    """thorough tier: the compiled files of EVERY module of the project (model, proofs, properties) are
+    replayed by `leanchecker`, the toolchain's independent re-checker of .olean files - the theorems
+    are then accepted by two implementations of the kernel's rules, not one. Shared by the checks of a
+    session through the layer cache (the key covers every Lean source)."""
+    def compute() -> Dict[str, Any]:
+        t0 = time.time()
+        ok_b, log_b = lake_build([])
+        mods = []
+        for lib in ("Hive", "Proofs", "Properties"):
+            for root, _dirs, files in os.walk(os.path.join(LEAN_DIR, lib)):
+                for f in sorted(files):
+                    if f.endswith(".lean"):
+                        rel = os.path.relpath(os.path.join(root, f), LEAN_DIR)
+                        mods.append(rel[:-5].replace(os.sep, "."))
+        mods = sorted(mods)
+        if not ok_b:
+            return {"ok": False, "log": "lake build (all targets) failed: " + log_b[-800:], "modules": len(mods), "wall_s": round(time.time() - t0, 1)}
+        p = subprocess.run(["lake", "env", "leanchecker", *mods], cwd=LEAN_DIR, stdout=subprocess.PIPE, stderr=subprocess.STDOUT, timeout=3000)
+        return {"ok": p.returncode == 0, "log": p.stdout.decode(errors="replace")[-800:], "modules": len(mods), "wall_s": round(time.time() - t0, 1)}
+    return cached("leanchecker", {}, compute)
+
+
 class ProofStatus:
     def __init__(self, prop: str, targets: List[str]):
         t0 = time.time()
@@ -114,8 +140,13 @@ class ProofStatus:
         self.targets = targets
         self.hygiene = hygiene_scan()
         self.build_ok, self.build_log = lake_build(targets)
+        self.recheck: Optional[Dict[str, Any]] = None
         if self.build_ok:
             self.theorems, self.problems = audit_axioms(prop)
+            if CURRENT_TIER == "thorough":
+                self.recheck = leanchecker_all()
+                if not self.recheck["ok"]:
+                    self.problems.append("leanchecker rejects the compiled files: " + self.recheck["log"][-300:])
         else:
             self.theorems, self.problems = {}, ["lake build failed"]
         self.wall = time.time() - t0
@@ -292,6 +323,8 @@ def proof_coverage(ps: ProofStatus) -> Dict[str, Any]:
         "trusted_base": list(TRUSTED_BASE_COMMON),
         "theorems": {k: v for k, v in sorted(ps.theorems.items())},
         "proof_wall_s": round(ps.wall, 2),
+        **({"leanchecker": {"modules_replayed": ps.recheck["modules"], "accepted": ps.recheck["ok"], "wall_s": ps.recheck["wall_s"],
+                            "cmd": "cd lean && lake build && lake env leanchecker <every module of Hive, Proofs, Properties>"}} if ps.recheck else {}),
     }
 
 
